@@ -18,7 +18,7 @@
 -/
 import Nuts.Model.ZSetA
 import NutsProofs.Lemmas.ZSetOrder
-import NutsProofs.Lemmas.SkiplistRefine
+import NutsProofs.Lemmas.SkiplistRank
 namespace NutsProofs.C07
 open Nuts Nuts.Model Nuts.Model.ZSetA NutsProofs NutsProofs.ZOrd
 
@@ -44,107 +44,197 @@ theorem C07_witness_ties : (put (put [] [98] 1 []) [97] 1 []).map (·.key) = [[9
 
 open Nuts.Model.Skiplist NutsProofs.SkipL
 
-/-- the mutating operations of ds/zset that the database issues one member at a time; `lvl` is the level
-`randomLevel()` drew for the node a `Put` creates (ignored when it creates none) -/
+/-- the mutating operations of ds/zset; `lvl` is the level `randomLevel()` drew for the node a `Put` creates
+(ignored when it creates none) -/
 inductive ZOp where
   | put (k : Bytes) (score : Int) (v : Bytes) (lvl : Nat)
   | rem (k : Bytes)
   | popMin
   | popMax
+  | remRange (a b : Int)
 
 def stepSL (s : SL) : ZOp → SL
   | .put k sc v lvl => Skiplist.put s k sc v lvl
   | .rem k => (Skiplist.remove s k).1
   | .popMin => (Skiplist.popMin s).1
   | .popMax => (Skiplist.popMax s).1
+  | .remRange a b => (Skiplist.getByRankRange s a b true).1
 
 def stepZ (z : St) : ZOp → St
   | .put k sc v _ => ZSetA.put z k sc v
   | .rem k => ZSetA.remove z k
   | .popMin => (ZSetA.popMin z).2
   | .popMax => (ZSetA.popMax z).2
+  | .remRange a b => (ZSetA.getByRankRange z a b true).2
 
 /-- what an operation returns -/
-def outSL (s : SL) : ZOp → Option Node
-  | .put _ _ _ _ => none
-  | .rem k => (Skiplist.remove s k).2
-  | .popMin => (Skiplist.popMin s).2
-  | .popMax => (Skiplist.popMax s).2
+def outSL (s : SL) : ZOp → List Node
+  | .put _ _ _ _ => []
+  | .rem k => (Skiplist.remove s k).2.toList
+  | .popMin => (Skiplist.popMin s).2.toList
+  | .popMax => (Skiplist.popMax s).2.toList
+  | .remRange a b => (Skiplist.getByRankRange s a b true).2
 
-def outZ (z : St) : ZOp → Option Node
-  | .put _ _ _ _ => none
-  | .rem k => ZSetA.find? z k
-  | .popMin => (ZSetA.popMin z).1
-  | .popMax => (ZSetA.popMax z).1
+def outZ (z : St) : ZOp → List Node
+  | .put _ _ _ _ => []
+  | .rem k => (ZSetA.find? z k).toList
+  | .popMin => (ZSetA.popMin z).1.toList
+  | .popMax => (ZSetA.popMax z).1.toList
+  | .remRange a b => (ZSetA.getByRankRange z a b true).1
 
-/-- `randomLevel()` returns a value between 1 and `SkipListMaxLevel` -/
-def LevelOk : ZOp → Prop
+/-- an operation is admissible on a set of `len` members: `randomLevel()` returns a value between 1 and
+`SkipListMaxLevel`; the regenerated `sanitizeIndexes` yields ranks ≥ 1 (it does for all 64-bit arguments and
+fewer than 2^62 members: `sanitize_pos`, `C20_sanitize_positive`) -/
+def OpOk (len : Nat) : ZOp → Prop
   | .put _ _ _ lvl => 1 ≤ lvl ∧ lvl ≤ maxLevel
+  | .remRange a b => 1 ≤ (ZSetA.sanitize len a b).1 ∧ 1 ≤ (ZSetA.sanitize len a b).2
   | _ => True
 
-theorem step_refines (s : SL) (h : OInv s) (op : ZOp) (hl : LevelOk op) :
+def OpsOk : St → List ZOp → Prop
+  | _, [] => True
+  | z, op :: rest => OpOk z.length op ∧ OpsOk (stepZ z op) rest
+
+theorem length_eq {s : SL} (h : OInv s) : s.length.toNat = (nodes s).length := by
+  obtain ⟨hd, ts, eall, _⟩ := h.inv.hdr
+  have : s.all.length = (nodes s).length + 1 := by simp [nodes, eall]
+  rw [h.inv.len]; omega
+
+theorem step_refines (s : SL) (h : OInv s) (op : ZOp) (hl : OpOk (nodes s).length op) :
     OInv (stepSL s op) ∧ nodes (stepSL s op) = stepZ (nodes s) op ∧ outSL s op = outZ (nodes s) op := by
   cases op with
   | put k sc v lvl =>
     obtain ⟨a, b⟩ := put_refines h k sc v lvl hl.1 hl.2
     exact ⟨a, b, rfl⟩
-  | rem k => exact remove_refines h k
-  | popMin => exact popMin_refines h
-  | popMax => exact popMax_refines h
+  | rem k =>
+    obtain ⟨a, b, c⟩ := remove_refines h k
+    exact ⟨a, b, by simp only [outSL, outZ, c]⟩
+  | popMin =>
+    obtain ⟨a, b, c⟩ := popMin_refines h
+    exact ⟨a, b, by simp only [outSL, outZ, c]⟩
+  | popMax =>
+    obtain ⟨a, b, c⟩ := popMax_refines h
+    exact ⟨a, b, by simp only [outSL, outZ, c]⟩
+  | remRange a b =>
+    have hl' : 1 ≤ (ZSetA.sanitize s.length.toNat a b).1 ∧ 1 ≤ (ZSetA.sanitize s.length.toNat a b).2 := by
+      rw [length_eq h]; exact hl
+    exact getByRankRange_rm_refines h a b hl'
 
-/-- **C07, the skiplist.** For every sequence of `Put`, `Remove`, `PopMin`, `PopMax` from the empty sorted set,
-whatever levels the random generator draws: the members of the skiplist in level-0 order are the node list
-after the same operations (ordered by score then key, keys distinct), the structure is well-formed — header of
-32 levels, `1 ≤ level ≤ 32`, `length` = number of members, every member has between 1 and `level` levels — and
-**every stored span of every tower is the distance to the next tower that has that level** (to the end of the
-list when there is none). -/
-theorem C07_skiplist_refines_sorted_list (ops : List ZOp) (hl : ∀ op ∈ ops, LevelOk op) :
-    nodes (ops.foldl stepSL Skiplist.empty) = ops.foldl stepZ [] ∧
-    Sorted (nodes (ops.foldl stepSL Skiplist.empty)) ∧
-    ((nodes (ops.foldl stepSL Skiplist.empty)).map (·.key)).Nodup ∧
-    Inv (ops.foldl stepSL Skiplist.empty) := by
-  suffices H : ∀ (ops : List ZOp) (s : SL) (z : St), OInv s → nodes s = z → (∀ op ∈ ops, LevelOk op) →
-      OInv (ops.foldl stepSL s) ∧ nodes (ops.foldl stepSL s) = ops.foldl stepZ z by
-    obtain ⟨a, b⟩ := H ops Skiplist.empty [] oinv_empty rfl hl
-    exact ⟨b, a.sorted, a.keys, a.inv⟩
+theorem history_refines : ∀ (ops : List ZOp) (s : SL) (z : St), OInv s → nodes s = z → OpsOk z ops →
+    OInv (ops.foldl stepSL s) ∧ nodes (ops.foldl stepSL s) = ops.foldl stepZ z := by
   intro ops
   induction ops with
   | nil => intro s z h e _; exact ⟨h, e⟩
   | cons op rest ih =>
     intro s z h e hl
-    obtain ⟨a, b, _⟩ := step_refines s h op (hl op (List.mem_cons_self ..))
+    subst e
+    obtain ⟨a, b, _⟩ := step_refines s h op hl.1
     simp only [List.foldl_cons]
-    exact ih _ _ a (by rw [b, e]) (fun o ho => hl o (List.mem_cons_of_mem _ ho))
+    exact ih _ _ a b hl.2
 
-/-- … and along the way every operation returns what the list operation returns (the removed node, the
-popped minimum / maximum, `nil` when there is none) -/
-theorem C07_skiplist_results (ops : List ZOp) (hl : ∀ op ∈ ops, LevelOk op) (op : ZOp) (ho : LevelOk op) :
+/-- **C07, the skiplist.** For every sequence of `Put`, `Remove`, `PopMin`, `PopMax` and
+`GetByRankRange(…, remove)` from the empty sorted set, whatever levels the random generator draws: the members
+of the skiplist in level-0 order are the node list after the same operations (ordered by score then key, keys
+distinct), the structure is well-formed — header of 32 levels, `1 ≤ level ≤ 32`, `length` = number of members,
+every member has between 1 and `level` levels — and **every stored span of every tower is the distance to the
+next tower that has that level** (to the end of the list when there is none). -/
+theorem C07_skiplist_refines_sorted_list (ops : List ZOp) (hl : OpsOk [] ops) :
+    nodes (ops.foldl stepSL Skiplist.empty) = ops.foldl stepZ [] ∧
+    Sorted (nodes (ops.foldl stepSL Skiplist.empty)) ∧
+    ((nodes (ops.foldl stepSL Skiplist.empty)).map (·.key)).Nodup ∧
+    Inv (ops.foldl stepSL Skiplist.empty) := by
+  obtain ⟨a, b⟩ := history_refines ops Skiplist.empty [] oinv_empty rfl hl
+  exact ⟨b, a.sorted, a.keys, a.inv⟩
+
+/-- … every mutating operation returns what the list operation returns (the removed node, the popped minimum
+or maximum, the removed rank range in order; nothing when there is none) … -/
+theorem C07_skiplist_results (ops : List ZOp) (hl : OpsOk [] ops) (op : ZOp)
+    (ho : OpOk (ops.foldl stepZ []).length op) :
     outSL (ops.foldl stepSL Skiplist.empty) op = outZ (ops.foldl stepZ []) op := by
-  suffices H : ∀ (ops : List ZOp) (s : SL), OInv s → (∀ op ∈ ops, LevelOk op) → OInv (ops.foldl stepSL s) by
-    have hinv := H ops Skiplist.empty oinv_empty hl
-    rw [← (C07_skiplist_refines_sorted_list ops hl).1]
-    exact (step_refines _ hinv op ho).2.2
-  intro ops
-  induction ops with
-  | nil => intro s h _; exact h
-  | cons o rest ih =>
-    intro s h hl
-    simp only [List.foldl_cons]
-    exact ih _ (step_refines s h o (hl o (List.mem_cons_self ..))).1 (fun o' ho' => hl o' (List.mem_cons_of_mem _ ho'))
+  obtain ⟨a, b⟩ := history_refines ops Skiplist.empty [] oinv_empty rfl hl
+  rw [← b] at ho ⊢
+  exact (step_refines _ a op ho).2.2
+
+/-- … and **every query answers from the skiplist what the list answers**, for every argument: `GetByKey`,
+`FindRank` (1-based index, 0 when absent), `FindRevRank`, `GetByRankRange` without removal (negative and
+reversed ranks included), `GetByScoreRange` (both directions, exclusive bounds, limit), `PeekMin`, `PeekMax`. -/
+theorem C07_skiplist_queries (ops : List ZOp) (hl : OpsOk [] ops) :
+    let s := ops.foldl stepSL Skiplist.empty
+    let z := ops.foldl stepZ []
+    (∀ k, Skiplist.find? s k = ZSetA.find? z k) ∧
+    (∀ k, Skiplist.findRank s k = ((ZSetA.rankOf z k : Nat) : Int)) ∧
+    (∀ k, Skiplist.findRevRank s k = if z.isEmpty || ZSetA.rankOf z k == 0 then 0 else (z.length : Int) - (ZSetA.rankOf z k : Nat) + 1) ∧
+    (∀ a b, 1 ≤ (ZSetA.sanitize z.length a b).1 ∧ 1 ≤ (ZSetA.sanitize z.length a b).2 →
+      (Skiplist.getByRankRange s a b false).1 = s ∧
+      (Skiplist.getByRankRange s a b false).2 = (ZSetA.getByRankRange z a b false).1) ∧
+    (∀ a b limit exA exB, Skiplist.getByScoreRange s a b limit exA exB = ZSetA.getByScoreRange z a b limit exA exB) ∧
+    Skiplist.peekMin s = z.head? ∧ Skiplist.peekMax s = z.getLast? := by
+  intro s z
+  obtain ⟨a, b⟩ := history_refines ops Skiplist.empty [] oinv_empty rfl hl
+  have hb : nodes s = z := b
+  refine ⟨?_, ?_, ?_, ?_, ?_, ?_, ?_⟩
+  · intro k; rw [← hb]; exact find_eq s k
+  · intro k; rw [← hb]; exact findRank_refines a k
+  · intro k
+    unfold Skiplist.findRevRank
+    rw [find_eq, findRank_refines a k, hb]
+    have hlen : s.length = (z.length : Int) := by
+      have h1 : s.length.toNat = (nodes s).length := length_eq a
+      rw [hb] at h1
+      have h2 : s.length = ((s.all.length - 1 : Nat) : Int) := a.inv.len
+      omega
+    rw [hlen]
+    cases hz : z with
+    | nil => simp [ZSetA.rankOf]
+    | cons x xs =>
+      simp only [List.length_cons, List.isEmpty_cons, Bool.false_or]
+      have hne : ¬ (((xs.length + 1 : Nat) : Int) = 0) := by omega
+      rw [if_neg hne]
+      cases hf : ZSetA.find? (x :: xs) k with
+      | none =>
+        have : ZSetA.rankOf (x :: xs) k = 0 := by
+          unfold ZSetA.rankOf
+          have hfresh := find_none_fresh hf
+          have : (x :: xs).findIdx? (fun y => decide (y.key = k)) = none := by
+            rw [List.findIdx?_eq_none_iff]
+            intro y hy
+            simpa using hfresh y hy
+          rw [this]
+        simp [this]
+      | some n =>
+        have : ZSetA.rankOf (x :: xs) k ≠ 0 := by
+          unfold ZSetA.rankOf
+          cases hi : (x :: xs).findIdx? (fun y => decide (y.key = k)) with
+          | some i => simp
+          | none =>
+            exfalso
+            rw [List.findIdx?_eq_none_iff] at hi
+            obtain ⟨hk, j, hj⟩ := find_some_idx hf
+            have := hi n (List.mem_of_getElem? hj)
+            simp [hk] at this
+        simp [this]
+  · intro x y hpos
+    have hpos' : 1 ≤ (ZSetA.sanitize s.length.toNat x y).1 ∧ 1 ≤ (ZSetA.sanitize s.length.toNat x y).2 := by
+      rw [length_eq a, hb]; exact hpos
+    rw [← hb]
+    exact getByRankRange_ro_refines a x y hpos'
+  · intro x y l e1 e2; rw [← hb]; exact getByScoreRange_refines a x y l e1 e2
+  · rw [← hb]; exact peekMin_refines a.inv
+  · rw [← hb]; exact peekMax_refines s
 
 /-- the history of the witness below -/
-def wOps : List ZOp := [.put [98] 1 [1] 1, .put [97] 1 [2] 3, .put [99] 0 [3] 2, .put [98] 5 [4] 2, .rem [97], .popMin]
+def wOps : List ZOp := [.put [98] 1 [1] 1, .put [97] 1 [2] 3, .put [99] 0 [3] 2, .put [98] 5 [4] 2, .rem [97], .remRange (-1) 5, .popMin]
 
-/-- non-vacuity: a history with towers of 1, 3 and 2 levels, a tie on the score, a re-scored member, a removal
-and a pop; the members and the spans the model computes for it (header first) -/
+/-- non-vacuity: a history with towers of 1, 3 and 2 levels, a tie on the score, a re-scored member, a removal,
+a rank-range removal with a negative rank and a pop; the members and the spans the model computes (header
+first) -/
 theorem C07_witness_skiplist :
-    (∀ op ∈ wOps, LevelOk op) ∧
-    (nodes (wOps.foldl stepSL Skiplist.empty)).map (·.key) = [[98]] ∧
+    OpsOk [] wOps ∧
+    (nodes ((wOps.take 5).foldl stepSL Skiplist.empty)).map (·.key) = [[99], [98]] ∧
+    (nodes (wOps.foldl stepSL Skiplist.empty)).map (·.key) = [] ∧
     (nodes ((wOps.take 4).foldl stepSL Skiplist.empty)).map (·.key) = [[99], [97], [98]] ∧
     (((wOps.take 4).foldl stepSL Skiplist.empty).all.map (·.spans.take 3)) = [[1, 1, 2], [1, 1], [1, 1, 1], [0, 0]] := by
-  refine ⟨?_, by decide +kernel, by decide +kernel, by decide +kernel⟩
-  intro op hop
-  simp only [wOps, List.mem_cons, List.mem_nil_iff, or_false] at hop
-  rcases hop with rfl | rfl | rfl | rfl | rfl | rfl <;> simp [LevelOk, maxLevel]
+  refine ⟨?_, by decide +kernel, by decide +kernel, by decide +kernel, by decide +kernel⟩
+  refine ⟨⟨by decide, by decide⟩, ⟨by decide, by decide⟩, ⟨by decide, by decide⟩, ⟨by decide, by decide⟩, trivial, ?_, trivial, trivial⟩
+  constructor <;> decide +kernel
 
 end NutsProofs.C07
